@@ -5,6 +5,7 @@ import (
 	"os"
 	"path/filepath"
 	"runtime"
+	"strings"
 	"sync"
 
 	"verifharness/internal/h"
@@ -181,8 +182,31 @@ func runTamper(s *summary, k *h.Keys, root *h.Rng, n int, thorough bool, addCase
 		}
 		ms := append(h.BitFlips(r, base, per), h.Catalogue(r, base)...)
 		s.Extra[fmt.Sprintf("base%d", bi)] = map[string]any{"spec": spec.String(), "bytes": len(base), "mutations_available": len(ms)}
+		// always kept, and verified under every narrowing as well: the header's protected fields,
+		// and one covered descriptor copied over another
+		var always []h.Mutation
+		copies := 0
+		for _, m := range ms {
+			switch {
+			case strings.HasPrefix(m.What, "hdr launch"), strings.HasPrefix(m.What, "hdr id"):
+				always = append(always, m)
+			case strings.HasPrefix(m.What, "copy desc") && copies < 2 && r.Chance(1, 3):
+				always = append(always, m)
+				copies++
+			}
+		}
 		ms = sample(r, ms, n)
 		ms = append(ms, h.MultiSite(r, base, n/3+4)...)
+		for _, m := range always {
+			desc := fmt.Sprintf("base %d {%s}; %s", bi, spec.String(), m.What)
+			for _, nv := range narrowings(vo, base) {
+				if c := addCase(m.Img, base, nv, desc+" (narrowed)"); c != nil {
+					s.OracleRuns["tamper-accepted-implies-same-protected-view"]++
+					s.Oracle = append(s.Oracle, h.TamperFindings(base, c, fmt.Sprintf("%s (groups %v objects %v)", desc, nv.Groups, nv.Objects))...)
+				}
+			}
+		}
+		ms = append(ms, always...)
 		for mi, m := range ms {
 			desc := fmt.Sprintf("base %d {%s}; %s", bi, spec.String(), m.What)
 			c := addCase(m.Img, base, vo, desc)
@@ -219,6 +243,28 @@ func runTamper(s *summary, k *h.Keys, root *h.Rng, n int, thorough bool, addCase
 			s.OpKinds["accepted-flips"] += acc
 		}
 	}
+}
+
+// narrowings: the requests that name one group, or one object of it, of a signed image.
+func narrowings(vo h.VOpts, img []byte) []h.VOpts {
+	var out []h.VOpts
+	si, err := h.DecodeImage(img)
+	if err != nil {
+		return nil
+	}
+	seen := map[uint32]bool{}
+	for _, d := range si.Descs {
+		if !d.Used || d.Type == h.DataSignature || d.GroupID() == 0 || seen[d.GroupID()] {
+			continue
+		}
+		seen[d.GroupID()] = true
+		g := vo
+		g.Objects, g.Groups = nil, []uint32{d.GroupID()}
+		o := vo
+		o.Groups, o.Objects = nil, []uint32{d.ID}
+		out = append(out, g, o)
+	}
+	return out
 }
 
 func id0(c *h.VCase) int {
